@@ -526,6 +526,7 @@ Lemma create_bm_spec pairs memLen m0 :
   | Err _ => True
   | Panic _ => False
   | Ok (cs, m') =>
+    (exists off', laid_out c_bufferManagerHeaderSize cs off' /\ off' <= memLen) /\
     layout_ok pairs memLen cs /\
     (Z.of_nat (length pairs) < 65536 -> map_bm memLen m' = Ok cs)
   end.
@@ -543,6 +544,7 @@ Proof.
   specialize (Hin Hne).
   destruct pairs as [|p0 rest]; [congruence|].
   destruct (memLen <=? c_bmCapOffset) eqn:E1; [consts; lia|].
+  split; [exists off'; split; [exact Hlay|exact Hin]|].
   split; [eapply laid_out_layout_ok; eauto|].
   intros Hn16.
   unfold map_bm.
@@ -728,7 +730,7 @@ Lemma buffers_partial pairs memLen m0 :
 Proof.
   intros Hmem Hok Hguard. unfold buffers_result_ok.
   pose proof (create_bm_spec pairs memLen m0 Hmem Hok Hguard) as H.
-  destruct (create_bm pairs memLen m0) as [[cs m']|e|p]; [exact (proj1 H)|exact I|exact H].
+  destruct (create_bm pairs memLen m0) as [[cs m']|e|p]; [exact (proj1 (proj2 H))|exact I|exact H].
 Qed.
 
 Lemma peer_view_partial pairs memLen m0 cs m' :
@@ -738,7 +740,7 @@ Lemma peer_view_partial pairs memLen m0 cs m' :
 Proof.
   intros Hmem Hok Hguard Hn Hc.
   pose proof (create_bm_spec pairs memLen m0 Hmem Hok Hguard) as H.
-  rewrite Hc in H. exact (proj2 H Hn).
+  rewrite Hc in H. exact (proj2 (proj2 H) Hn).
 Qed.
 
 (* witnesses at the 4 GiB corner *)
@@ -1030,7 +1032,9 @@ Lemma create_bm_spec_config pairs memLen m0 :
   match create_bm pairs memLen m0 with
   | Err _ => True
   | Panic _ => False
-  | Ok (cs, m') => layout_ok pairs memLen cs /\ map_bm memLen m' = Ok cs
+  | Ok (cs, m') =>
+    (exists off', laid_out c_bufferManagerHeaderSize cs off' /\ off' <= memLen) /\
+    layout_ok pairs memLen cs /\ map_bm memLen m' = Ok cs
   end.
 Proof.
   intros (Hmem & Hne & Hall & Hsum & Hhdr).
@@ -1056,6 +1060,7 @@ Proof.
   assert (Hn100 : n <= 100) by (subst n; rewrite <- Hsum; apply length_le_sum_pct; exact Hp1).
   destruct pairs as [|p0 rest]; [congruence|].
   destruct (memLen <=? c_bmCapOffset) eqn:E1; [consts; lia|].
+  split; [exists off'; split; [exact Hlay|exact Hin]|].
   split; [eapply laid_out_layout_ok; eauto|].
   unfold map_bm.
   destruct ((memLen <=? c_bmCapOffset) || (memLen <=? 0)) eqn:E2; [lia|].
@@ -1074,13 +1079,13 @@ Qed.
 Lemma buffers_config pairs memLen m0 : config_ok memLen pairs -> buffers_result_ok pairs memLen m0.
 Proof.
   intros H. unfold buffers_result_ok. pose proof (create_bm_spec_config pairs memLen m0 H) as Hc.
-  destruct (create_bm pairs memLen m0) as [[cs m']|e|p]; [exact (proj1 Hc)|exact I|exact Hc].
+  destruct (create_bm pairs memLen m0) as [[cs m']|e|p]; [exact (proj1 (proj2 Hc))|exact I|exact Hc].
 Qed.
 
 Lemma peer_view_config pairs memLen m0 cs m' :
   config_ok memLen pairs -> create_bm pairs memLen m0 = Ok (cs, m') -> map_bm memLen m' = Ok cs.
 Proof.
-  intros H Hc. pose proof (create_bm_spec_config pairs memLen m0 H) as Hs. rewrite Hc in Hs. exact (proj2 Hs).
+  intros H Hc. pose proof (create_bm_spec_config pairs memLen m0 H) as Hs. rewrite Hc in Hs. exact (proj2 (proj2 Hs)).
 Qed.
 
 (* VerifyConfig rejects the refuting witness (its percentages sum to 4294967318 in int, not 100); it accepts
@@ -1101,4 +1106,181 @@ Lemma wit_div0_config_ok : config_ok wit_mem wit_div0.
 Proof.
   destruct wit_div0_accepted_by_VerifyConfig as (H1 & H2 & H3 & H4 & H5).
   unfold config_ok. repeat split; try assumption; lia.
+Qed.
+
+(* ---------------------------------------------------------------------------------------------- *)
+(* the peer's view does not depend on the allocation state: the allocator (bufferList.pop / push, on
+   either side) changes the size / head / tail words of the list headers and nothing else of them;
+   mappingBufferManager derives every extent from the cap and capPerBuffer words *)
+
+(* class c with its three state words re-read from memory m *)
+Definition restate (m : mem) (c : class) : class :=
+  {| cl_off := cl_off c; cl_regionOff := cl_regionOff c; cl_regionLen := cl_regionLen c;
+     cl_size := m (w32 (cl_off c + off_map_list_size)); cl_cap := cl_cap c;
+     cl_head := m (w32 (cl_off c + off_map_list_head)); cl_tail := m (w32 (cl_off c + off_map_list_tail));
+     cl_capPerBuffer := cl_capPerBuffer c |}.
+
+(* an address that holds the size, head or tail word of one of the classes *)
+Definition state_cell (cs : list class) (a : Z) : Prop :=
+  exists c, In c cs /\ (a = w32 (cl_off c + off_map_list_size) \/ a = w32 (cl_off c + off_map_list_head) \/
+                        a = w32 (cl_off c + off_map_list_tail)).
+
+Definition geometry_cells_hold (m : mem) (c : class) : Prop :=
+  m (w32 (cl_off c + off_map_list_cap)) = cl_cap c /\
+  m (w32 (cl_off c + off_map_list_capPerBuffer)) = cl_capPerBuffer c.
+
+Lemma map_fbl_cells m2 off num cpb memLen :
+  0 <= off -> 0 <= memLen < 4294967296 -> 1 <= num -> 1 <= cpb ->
+  off + c_bufferListHeaderSize + num * (cpb + c_bufferHeaderSize) <= memLen ->
+  m2 (w32 (off + off_map_list_cap)) = num -> m2 (w32 (off + off_map_list_capPerBuffer)) = cpb ->
+  map_fbl memLen off m2 = Ok (restate m2 (mk_class off num cpb)).
+Proof.
+  intros Hoff Hmem Hnum Hcpb Hfit Hcap Hcp.
+  assert (HP0 : 0 < num * (cpb + c_bufferHeaderSize)) by (apply Z.mul_pos_pos; consts; lia).
+  pose proof (list_mem_size_small num cpb ltac:(lia) ltac:(lia) ltac:(consts; lia)) as HA.
+  unfold map_fbl.
+  destruct (memLen <? c_bufferListHeaderSize + off) eqn:E1; [consts; lia|].
+  assert (E2 : existsb (fun k => memLen <=? w32 (off + k)) map_offsets = false).
+  { unfold map_offsets. cbn [existsb]. rewrite !w32_small by (consts; lia). consts; lia. }
+  rewrite E2. rewrite Hcap, Hcp. cbv zeta. rewrite HA.
+  rewrite (w32_small memLen) by lia.
+  rewrite (w32_small (off + (_ + _))) by (consts; lia).
+  rewrite (w32_small (off + c_bufferListHeaderSize)) by (consts; lia).
+  destruct ((memLen <? off + (c_bufferListHeaderSize + num * (cpb + c_bufferHeaderSize)))
+            || (off + (c_bufferListHeaderSize + num * (cpb + c_bufferHeaderSize)) <? off + c_bufferListHeaderSize)) eqn:E3;
+    [consts; lia|].
+  unfold restate, mk_class. cbn [cl_off cl_regionOff cl_regionLen cl_cap cl_capPerBuffer].
+  f_equal. f_equal. ring.
+Qed.
+
+Lemma map_loop_layout cs : forall off off' memLen m2,
+  laid_out off cs off' -> 0 <= off -> off' <= memLen -> 0 <= memLen < 4294967296 ->
+  Forall (geometry_cells_hold m2) cs ->
+  map_loop (length cs) memLen off m2 = Ok (map (restate m2) cs).
+Proof.
+  induction cs as [|c r IH]; intros off off' memLen m2 Hlay Hoff Hle Hmem Hcells; [reflexivity|].
+  cbn [laid_out] in Hlay. destruct Hlay as (Hwf & Hco & Hr).
+  inversion Hcells as [|x l Hc Hrest]; subst x l.
+  pose proof (laid_out_mono _ _ _ Hr) as Hmono.
+  destruct (class_wf_span c Hwf) as (Hlen & Hro & _).
+  destruct Hwf as (Hmk & Hcap & Hcpb & Hs32).
+  destruct Hc as (Hc1 & Hc2).
+  assert (Hend : class_end c = off + c_bufferListHeaderSize + cl_cap c * (cl_capPerBuffer c + c_bufferHeaderSize)).
+  { pose proof (f_equal cl_regionLen Hmk) as Hrl. unfold mk_class in Hrl. cbn [cl_regionLen] in Hrl.
+    unfold class_end. rewrite Hro, Hrl, Hco. ring. }
+  cbn [length map_loop map]. rewrite (w32_small off) by (unfold class_end in *; consts; lia).
+  rewrite Hco in Hc1, Hc2.
+  rewrite (map_fbl_cells m2 off (cl_cap c) (cl_capPerBuffer c) memLen Hoff Hmem Hcap Hcpb ltac:(lia) Hc1 Hc2).
+  assert (Hre : restate m2 (mk_class off (cl_cap c) (cl_capPerBuffer c)) = restate m2 c).
+  { rewrite <- Hco. rewrite <- Hmk. reflexivity. }
+  rewrite Hre. cbn [restate cl_cap cl_capPerBuffer].
+  rewrite (list_mem_size_small (cl_cap c) (cl_capPerBuffer c)) by (consts; lia).
+  rewrite (w32_small (off + _)) by (consts; lia).
+  replace (off + (c_bufferListHeaderSize + cl_cap c * (cl_capPerBuffer c + c_bufferHeaderSize))) with (class_end c) by lia.
+  rewrite (IH (class_end c) off' memLen m2 Hr ltac:(consts; lia) Hle Hmem Hrest). reflexivity.
+Qed.
+
+(* what a successful mapping read: the class list mirrors the cap / capPerBuffer words *)
+Lemma map_loop_inv n : forall memLen used m cs,
+  map_loop n memLen used m = Ok cs -> length cs = n /\ Forall (geometry_cells_hold m) cs.
+Proof.
+  induction n as [|n IH]; intros memLen used m cs H; cbn [map_loop] in H.
+  { injection H as <-. split; [reflexivity|constructor]. }
+  destruct (map_fbl memLen (w32 used) m) as [c|e|p] eqn:Ef; try discriminate.
+  destruct (map_loop n memLen _ m) as [cs'|e|p] eqn:El; try discriminate.
+  injection H as <-. destruct (IH _ _ _ _ El) as (Hlen & Hall).
+  split; [cbn [length]; congruence|]. constructor; [|exact Hall].
+  unfold map_fbl in Ef.
+  destruct (memLen <? c_bufferListHeaderSize + w32 used); [discriminate|].
+  destruct (existsb _ map_offsets); [discriminate|].
+  cbv zeta in Ef.
+  destruct (_ || _); [discriminate|]. destruct (_ || _); [discriminate|].
+  injection Ef as <-. split; reflexivity.
+Qed.
+
+Lemma laid_out_headers_apart cs off off' c c2 : laid_out off cs off' -> In c cs -> In c2 cs ->
+  cl_off c = cl_off c2 \/ cl_off c + c_bufferListHeaderSize <= cl_off c2 \/ cl_off c2 + c_bufferListHeaderSize <= cl_off c.
+Proof.
+  intros Hlay H1 H2.
+  destruct (In_nth_error _ _ H1) as (j1 & Hj1). destruct (In_nth_error _ _ H2) as (j2 & Hj2).
+  destruct (laid_out_extent _ _ _ c Hlay H1) as (Hwf1 & _ & _).
+  destruct (laid_out_extent _ _ _ c2 Hlay H2) as (Hwf2 & _ & _).
+  destruct (class_wf_span c Hwf1) as (Hl1 & Hr1 & _). destruct (class_wf_span c2 Hwf2) as (Hl2 & Hr2 & _).
+  destruct (lt_eq_lt_dec j1 j2) as [[Hlt|Heq]|Hgt].
+  - right; left. pose proof (laid_out_order _ _ _ _ _ _ _ Hlay Hj1 Hj2 Hlt) as H. unfold class_end in H. lia.
+  - left. subst j2. congruence.
+  - right; right. pose proof (laid_out_order _ _ _ _ _ _ _ Hlay Hj2 Hj1 Hgt) as H. unfold class_end in H. lia.
+Qed.
+
+Lemma peer_view_state_independent memLen cs off' m' :
+  laid_out c_bufferManagerHeaderSize cs off' -> off' <= memLen -> 0 <= memLen < 4294967296 ->
+  map_bm memLen m' = Ok cs ->
+  forall m2, (forall a, ~ state_cell cs a -> m2 a = m' a) ->
+  map_bm memLen m2 = Ok (map (restate m2) cs).
+Proof.
+  intros Hlay Hle Hmem Hmap m2 Hm2.
+  (* header addresses of the classes are small and behind the manager header *)
+  assert (Hhdr : forall c, In c cs -> c_bufferManagerHeaderSize <= cl_off c /\ cl_off c + c_bufferListHeaderSize <= memLen).
+  { intros c Hin. destruct (laid_out_extent _ _ _ c Hlay Hin) as (Hwf & Hlo & Hhi).
+    destruct (class_wf_span c Hwf) as (Hl & Hr & _). unfold class_end in Hhi. lia. }
+  assert (Hns : forall a, (forall c, In c cs -> a < cl_off c \/ cl_off c + c_bufferListHeaderSize <= a \/
+                              (a = cl_off c + off_map_list_cap \/ a = cl_off c + off_map_list_capPerBuffer)) ->
+                          ~ state_cell cs a).
+  { intros a Ha (c & Hin & Hc). specialize (Ha c Hin). destruct (Hhdr c Hin) as (H8 & Hm).
+    rewrite !w32_small in Hc by (consts; lia). consts. lia. }
+  unfold map_bm in *.
+  destruct ((memLen <=? c_bmCapOffset) || (memLen <=? 0)) eqn:E0; [discriminate|].
+  rewrite (Hm2 0) by (apply Hns; intros c Hin; destruct (Hhdr c Hin); consts; lia).
+  rewrite (Hm2 c_bmCapOffset) by (apply Hns; intros c Hin; destruct (Hhdr c Hin); consts; lia).
+  destruct ((memLen <? c_bufferManagerHeaderSize + m' c_bmCapOffset) || (w16 (m' 0) =? 0)) eqn:E1; [discriminate|].
+  destruct (map_loop_inv _ _ _ _ _ Hmap) as (Hlen & Hcells).
+  rewrite <- Hlen.
+  apply (map_loop_layout cs _ off'); try assumption; [consts; lia|].
+  apply Forall_forall. intros c Hin. rewrite Forall_forall in Hcells. destruct (Hcells c Hin) as (H1 & H2).
+  destruct (Hhdr c Hin) as (H8 & Hm).
+  unfold geometry_cells_hold.
+  rewrite !w32_small in * by (consts; lia).
+  rewrite !Hm2; [split; assumption| |].
+  - apply Hns. intros c2 Hin2. destruct (laid_out_headers_apart _ _ _ c c2 Hlay Hin Hin2) as [He|[Hl|Hg]]; consts; lia.
+  - apply Hns. intros c2 Hin2. destruct (laid_out_headers_apart _ _ _ c c2 Hlay Hin Hin2) as [He|[Hl|Hg]]; consts; lia.
+Qed.
+
+Lemma restate_geometry m c :
+  cl_off (restate m c) = cl_off c /\ cl_regionOff (restate m c) = cl_regionOff c /\
+  cl_regionLen (restate m c) = cl_regionLen c /\ cl_cap (restate m c) = cl_cap c /\
+  cl_capPerBuffer (restate m c) = cl_capPerBuffer c.
+Proof. repeat split. Qed.
+
+Lemma peer_view_independent_config pairs memLen m0 cs m' :
+  config_ok memLen pairs -> create_bm pairs memLen m0 = Ok (cs, m') ->
+  forall m2, (forall a, ~ state_cell cs a -> m2 a = m' a) ->
+  map_bm memLen m2 = Ok (map (restate m2) cs).
+Proof.
+  intros Hok Hc. pose proof (create_bm_spec_config pairs memLen m0 Hok) as Hs. rewrite Hc in Hs.
+  destruct Hs as ((off' & Hlay & Hle) & _ & Hmap). destruct Hok as (Hmem & _).
+  exact (peer_view_state_independent memLen cs off' m' Hlay Hle Hmem Hmap).
+Qed.
+
+Lemma peer_view_independent_partial pairs memLen m0 cs m' :
+  0 <= memLen -> pairs_ok memLen pairs -> memLen + c_bufferListHeaderSize < 4294967296 ->
+  Z.of_nat (length pairs) < 65536 ->
+  create_bm pairs memLen m0 = Ok (cs, m') ->
+  forall m2, (forall a, ~ state_cell cs a -> m2 a = m' a) ->
+  map_bm memLen m2 = Ok (map (restate m2) cs).
+Proof.
+  intros Hmem Hok Hguard Hn Hc. pose proof (create_bm_spec pairs memLen m0 Hmem Hok Hguard) as Hs. rewrite Hc in Hs.
+  destruct Hs as ((off' & Hlay & Hle) & _ & Hmap).
+  apply (peer_view_state_independent memLen cs off' m' Hlay Hle ltac:(consts; lia) (Hmap Hn)).
+Qed.
+
+Lemma peer_view_independent_config_geom pairs memLen m0 cs m' :
+  config_ok memLen pairs -> create_bm pairs memLen m0 = Ok (cs, m') ->
+  forall m2, (forall a, ~ state_cell cs a -> m2 a = m' a) ->
+  map_bm memLen m2 = Ok (map (restate m2) cs) /\
+  Forall (fun c => cl_off (restate m2 c) = cl_off c /\ cl_regionOff (restate m2 c) = cl_regionOff c /\
+                   cl_regionLen (restate m2 c) = cl_regionLen c /\ cl_cap (restate m2 c) = cl_cap c /\
+                   cl_capPerBuffer (restate m2 c) = cl_capPerBuffer c) cs.
+Proof.
+  intros Hok Hc m2 Hm2. split; [exact (peer_view_independent_config pairs memLen m0 cs m' Hok Hc m2 Hm2)|].
+  apply Forall_forall. intros c _. apply restate_geometry.
 Qed.
